@@ -103,6 +103,8 @@ macro_rules! atomic_op {
             //    cause the buffer to become detached.
             let ta = ta.borrow();
             let ta = ta.data();
+            // The coercion above can also have shrunk the buffer.
+            let buf_len = revalidate_atomic_access(ta, access)?;
             let mut buffer = ta.viewed_array_buffer().as_buffer_mut();
             let Some(mut data) = buffer.bytes_with_len(buf_len) else {
                 return Err(JsNativeError::typ()
@@ -195,6 +197,7 @@ impl Atomics {
         // 2. Perform ? RevalidateAtomicAccess(typedArray, indexedPosition).
         let ta = ta.borrow();
         let ta = ta.data();
+        let buf_len = revalidate_atomic_access(ta, access)?;
         let buffer = ta.viewed_array_buffer().as_buffer();
         let Some(data) = buffer.bytes_with_len(buf_len) else {
             return Err(JsNativeError::typ()
@@ -246,6 +249,7 @@ impl Atomics {
         // 4. Perform ? RevalidateAtomicAccess(typedArray, indexedPosition).
         let ta = ta.borrow();
         let ta = ta.data();
+        let buf_len = revalidate_atomic_access(ta, access)?;
         let mut buffer = ta.viewed_array_buffer().as_buffer_mut();
         let Some(mut buffer) = buffer.bytes_with_len(buf_len) else {
             return Err(JsNativeError::typ()
@@ -294,6 +298,7 @@ impl Atomics {
         // 6. Perform ? RevalidateAtomicAccess(typedArray, indexedPosition).
         let ta = ta.borrow();
         let ta = ta.data();
+        let buf_len = revalidate_atomic_access(ta, access)?;
         let mut buffer = ta.viewed_array_buffer().as_buffer_mut();
         let Some(mut buffer) = buffer.bytes_with_len(buf_len) else {
             return Err(JsNativeError::typ()
@@ -706,6 +711,40 @@ fn validate_atomic_access(
         byte_offset: offset,
         kind,
     })
+}
+
+/// [`RevalidateAtomicAccess ( typedArray, byteIndexInBuffer )`][spec]
+///
+/// Returns the current byte length of the viewed buffer.
+///
+/// [spec]: https://tc39.es/ecma262/#sec-revalidateatomicaccess
+fn revalidate_atomic_access(array: &TypedArray, access: AtomicAccess) -> JsResult<usize> {
+    // 1. Let taRecord be MakeTypedArrayWithBufferWitnessRecord(typedArray, unordered).
+    // 2. NOTE: Bounds checking is not a synchronizing operation when typedArray's backing buffer is a growable SharedArrayBuffer.
+    let buffer = array.viewed_array_buffer().as_buffer();
+    let Some(buf_len) = buffer.bytes(Ordering::Relaxed).map(|bytes| bytes.len()) else {
+        return Err(JsNativeError::typ()
+            .with_message("cannot execute atomic operation in detached buffer")
+            .into());
+    };
+
+    // 3. If IsTypedArrayOutOfBounds(taRecord) is true, throw a TypeError exception.
+    if array.is_out_of_bounds(buf_len) {
+        return Err(JsNativeError::typ()
+            .with_message("typed array is outside the bounds of its inner buffer")
+            .into());
+    }
+
+    // 4. Assert: byteIndexInBuffer ≥ typedArray.[[ByteOffset]].
+    // 5. If byteIndexInBuffer ≥ taRecord.[[CachedBufferByteLength]], throw a RangeError exception.
+    // The whole element must fit inside a shrunk length-tracking array.
+    if access.byte_offset + access.kind.element_size() as usize > buf_len {
+        return Err(JsNativeError::range()
+            .with_message("index for typed array outside of bounds")
+            .into());
+    }
+
+    Ok(buf_len)
 }
 
 #[cfg(test)]
